@@ -109,11 +109,14 @@ def maybe_exotic(rng, ts, frac=0.45, p=0.35, kinds=None):
 
 
 def tie_times(rng, ts):
-    """same tree sequence with non-sample node times moved up to a coarse grid (many unrelated nodes
-    share a NON-ZERO age) while every parent stays strictly above its children"""
+    """same tree sequence with non-sample node times moved up to a coarse DYADIC grid (many unrelated
+    nodes share a non-zero age; level * step is exact, so ties are exact and no branch is shorter than
+    one grid step) while every parent stays strictly above its children"""
     import tskit
-    step = rng.choice([0.25, 0.5, 1.0]) * max(float(ts.max_root_time), 1e-3) / rng.choice([2, 4, 8])
+    top = max(float(ts.max_root_time), 1e-3)
+    step = 2.0 ** math.floor(math.log2(top / rng.choice([2, 4, 8, 16])))
     t = np.array(ts.nodes_time, dtype=float)
+    level = {}
     new = t.copy()
     is_sample = (ts.nodes_flags & tskit.NODE_IS_SAMPLE) != 0
     kids = {}
@@ -122,11 +125,11 @@ def tie_times(rng, ts):
     for u in sorted(range(ts.num_nodes), key=lambda v: t[v]):
         if is_sample[u]:
             continue
-        g = math.ceil(t[u] / step) * step
-        low = max([new[c] for c in kids.get(u, [])] + [0.0])
-        while g <= low:
-            g += step
-        new[u] = g
+        k = max(1, math.ceil(t[u] / step))
+        for c in kids.get(u, []):
+            k = max(k, (level[c] + 1) if c in level else math.floor(new[c] / step) + 1)
+        level[u] = k
+        new[u] = k * step
     tables = ts.dump_tables()
     tables.nodes.time = new
     tables.mutations.time = np.full(tables.mutations.num_rows, tskit.UNKNOWN_TIME)
@@ -275,6 +278,20 @@ def impl_point(case):
 
 
 # ------------------------------------------------------------------ Coq terms
+def chunks(terms, max_chars=250000, max_n=150):
+    """split a list of Coq terms so that no generated file gets too large for coqc's parser"""
+    out, cur, size = [], [], 0
+    for t in terms:
+        if cur and (size + len(t) > max_chars or len(cur) >= max_n):
+            out.append(cur)
+            cur, size = [], 0
+        cur.append(t)
+        size += len(t)
+    if cur:
+        out.append(cur)
+    return out
+
+
 def c_liks(liks):
     return clist(liks, lambda r: cpair(cfloat(r[0]), cfloat(r[1])))
 
@@ -297,8 +314,8 @@ def model_area_timescale(ctx, cases, cpss):
            "  (mutational_area FNum t l e,\n"
            "   match cps with Some c => mutational_timescale FNum t l e c | None => None end).\n")
     out = []
-    for i in range(0, len(terms), 150):
-        body = hdr + "Definition cases := %s.\nEval vm_compute in cases.\n" % clist(terms[i:i + 150])
+    for ch in chunks(terms):
+        body = hdr + "Definition cases := %s.\nEval vm_compute in cases.\n" % clist(ch)
         res = ctx.coq_eval(body, requires=REQ, tag="area")
         out += res[0]
     conv = []
@@ -319,8 +336,8 @@ def model_point(ctx, cases):
     terms = ["piecewise_scale_point_estimate FNum %s %s %s %s" % (
         c_floats(c["x"]), clist(c["fixed"], cbool), c_floats(c["ob"]), c_floats(c["rb"])) for c in cases]
     out = []
-    for i in range(0, len(terms), 250):
-        body = "Definition cases := %s.\nEval vm_compute in cases.\n" % clist(terms[i:i + 250])
+    for ch in chunks(terms):
+        body = "Definition cases := %s.\nEval vm_compute in cases.\n" % clist(ch)
         out += ctx.coq_eval(body, requires=REQ, tag="point")[0]
     return [None if r is None else [float(x) for x in r[1]] for r in out]
 
@@ -516,8 +533,8 @@ def model_posterior(ctx, cases, tabs):
             clist(c["posts"], lambda r: cpair(cfloat(r[0]), cfloat(r[1]))), clist(c["fixed"], cbool),
             c_floats(c["ob"]), c_floats(c["rb"]), cfloat(c["qw"]), cfloat(c["ms"])))
     out = []
-    for i in range(0, len(terms), 120):
-        body = POST_HDR + "Definition cases := %s.\nEval vm_compute in cases.\n" % clist(terms[i:i + 120])
+    for ch in chunks(terms):
+        body = POST_HDR + "Definition cases := %s.\nEval vm_compute in cases.\n" % clist(ch)
         out += ctx.coq_eval(body, requires=REQ, tag="post")[0]
     conv = []
     for r in out:
@@ -551,8 +568,8 @@ def model_ep_breaks(ctx, items):
             c_floats(it["means"]), clist(it["fixed"], cbool), c_liks(it["liks"]), c_edges(it),
             clist(it["cpss"], lambda cps: clist(cps, cnat))))
     out = []
-    for i in range(0, len(terms), 60):
-        body = "Definition cases := %s.\nEval vm_compute in cases.\n" % clist(terms[i:i + 60])
+    for ch in chunks(terms):
+        body = "Definition cases := %s.\nEval vm_compute in cases.\n" % clist(ch)
         out += ctx.coq_eval(body, requires=REQ, tag="epbreaks")[0]
     conv = []
     for r in out:
@@ -635,8 +652,8 @@ def model_rescale_ts(ctx, items):
             clist(it["cpss"], lambda cps: clist(cps, cnat)),
             clist(it["muts"], lambda m: cpair(copt(m[0], cnat), cnat(m[1])))))
     out = []
-    for i in range(0, len(terms), 60):
-        body = "Definition cases := %s.\nEval vm_compute in cases.\n" % clist(terms[i:i + 60])
+    for ch in chunks(terms):
+        body = "Definition cases := %s.\nEval vm_compute in cases.\n" % clist(ch)
         out += ctx.coq_eval(body, requires=REQ, tag="rescalets")[0]
     conv = []
     for r in out:
@@ -659,8 +676,8 @@ def model_steps(ctx, items):
         terms.append("rescale_loop FNum %s %s %s [%s] %s None" % (
             c_liks(it["liks"]), c_edges(it), clist(it["fixed"], cbool), clist(it["cps"], cnat), c_floats(it["t"])))
     out = []
-    for i in range(0, len(terms), 100):
-        body = "Definition cases := %s.\nEval vm_compute in cases.\n" % clist(terms[i:i + 100])
+    for ch in chunks(terms):
+        body = "Definition cases := %s.\nEval vm_compute in cases.\n" % clist(ch)
         out += ctx.coq_eval(body, requires=REQ, tag="step")[0]
     conv = []
     for r in out:
@@ -678,8 +695,8 @@ def model_recover(ctx, items):
     terms = ["recover_breaks FNum %s %s %s %s" % (c_floats(it["means"]), clist(it["fixed"], cbool),
                                                   c_floats(it["x"]), c_floats(it["rb"])) for it in items]
     out = []
-    for i in range(0, len(terms), 150):
-        body = "Definition cases := %s.\nEval vm_compute in cases.\n" % clist(terms[i:i + 150])
+    for ch in chunks(terms):
+        body = "Definition cases := %s.\nEval vm_compute in cases.\n" % clist(ch)
         out += ctx.coq_eval(body, requires=REQ, tag="recover")[0]
     return [None if r is None else [float(v) for v in r[1]] for r in out]
 
